@@ -124,6 +124,26 @@ def ir_blocks(ctx, rnd):
             blocks.append((k, "\n".join(ls)))
             meta[k] = ("mixed", r1, p, r2, q)
             k += 1
+    # a quantity handed back to chrono as a duration of ANOTHER rep and period (implicitly), and
+    # `duration += quantity`: the same count as chrono's own implicit conversion of the duration
+    xpairs = [(p, q) for p in PERIODS[:7] for q in PERIODS[:7] if p != q]
+    rnd.shuffle(xpairs)
+    for (p, q) in xpairs[:(42 if ctx.thorough else 12)]:
+        ratio = Fraction(p[0], p[1]) / Fraction(q[0], q[1])
+        for (r1, r2) in [("int32_t", "int64_t"), ("int32_t", "double"), ("float", "double"), ("int64_t", "int64_t"), ("int64_t", "double"), ("int16_t", "int32_t")]:
+            if ratio.denominator != 1 and ratio.numerator != 1:
+                continue
+            if model.is_int(r2) and ratio.denominator != 1:
+                continue  # chrono refuses a truncating implicit conversion
+            D1, D2 = dur(r1, p), dur(r2, q)
+            ls = ["using E%d = %s; using F%d = %s;" % (k, D1, k, D2),
+                  'extern "C" %s xt_au_%d(%s x) { E%d d{x}; F%d back = au::as_quantity(d); return back.count(); }' % (r2, k, r1, k, k),
+                  'extern "C" %s xt_ref_%d(%s x) { E%d d{x}; F%d back = d; return back.count(); }' % (r2, k, r1, k, k),
+                  'extern "C" %s xt_peq_%d(%s y, %s x) { F%d acc{y}; acc += au::as_quantity(E%d{x}); return acc.count(); }' % (r2, k, r2, r1, k, k),
+                  'extern "C" %s xt_pref_%d(%s y, %s x) { F%d acc{y}; acc += E%d{x}; return acc.count(); }' % (r2, k, r2, r1, k, k)]
+            blocks.append((k, "\n".join(ls)))
+            meta[k] = ("cross", r1, p, r2, q)
+            k += 1
     return blocks, meta
 
 
@@ -144,7 +164,7 @@ def body(ctx):
 
     def do(arg):
         ci, ch = arg
-        mod, alive, dropped = irbuild.build_blocks(ctx, ipre, ch, "c17i%d" % ci, only=lambda n: n.startswith(("rt", "m_")))
+        mod, alive, dropped = irbuild.build_blocks(ctx, ipre, ch, "c17i%d" % ci, only=lambda n: n.startswith(("rt", "m_", "xt_")))
         fs = []
         n = nd = 0
         for k in alive:
@@ -158,6 +178,25 @@ def body(ctx):
                     else:
                         fs.append(("roundtrip:%s,%d/%d|%s" % (r1, p[0], p[1], fn.split("_")[0]),
                                    "duration -> quantity -> duration does not return the count unchanged for %s" % dur(r1, p), d.ret.pretty()))
+            elif kind == "cross":
+                for au_fn, ref_fn, what in (("xt_au_%d" % k, "xt_ref_%d" % k, "implicit conversion back"), ("xt_peq_%d" % k, "xt_pref_%d" % k, "`duration += quantity`")):
+                    n += 1
+                    got, ref = dag.build(mod.funcs[au_fn], mod), dag.build(mod.funcs[ref_fn], mod)
+                    ok = got.ret == ref.ret
+                    if not ok and model.is_int(r1) and model.is_int(r2):
+                        # chrono multiplies in intmax_t and narrows, Au in the receiving rep: the same
+                        # count whenever it fits - provided Au's arithmetic is at least as wide as the
+                        # receiving rep (scale-then-widen would wrap where chrono does not)
+                        a, b = dag.affine(got.ret), dag.affine(ref.ret)
+                        bits = model.INT_TYPES[model.canon(r2)][0]
+                        ok = (a is not None and b is not None and a.div is None and b.div is None and a.coef == b.coef and a.c == b.c
+                              and all(dag.INT_BITS.get(pn.ty, 0) >= bits for pn in a.premises if pn.op in ("mul", "add", "sub")))
+                    if ok:
+                        nd += 1
+                    else:
+                        fs.append(("cross:%s,%d/%d->%s,%d/%d|%s" % (r1, p[0], p[1], r2, q[0], q[1], au_fn.split("_")[1]),
+                                   "%s of the quantity of a %s into a %s differs from chrono's own conversion of the duration" % (what, dur(r1, p), dur(r2, q)),
+                                   "Au:     %s\nchrono: %s" % (got.ret.pretty(), ref.ret.pretty())))
             else:
                 for nm, op in CMPS + [("add", "+"), ("sub", "-")]:
                     ref = dag.build(mod.funcs["m_ref_%s_%d" % (nm, k)], mod)
